@@ -1,5 +1,5 @@
 #![allow(dead_code)]
 use parity_scale_codec::{Compact, Decode, Encode};
 #[derive(Encode, Decode)]
-pub struct T { pub f0: u8, pub f1: u32, #[codec(compact)] #[codec(encoded_as = "Compact<u64>")] pub f2: u64 }
+pub struct T { #[codec(compact)] #[codec(encoded_as = "Compact<u32>")] pub f0: u32 }
 fn main() {}
